@@ -135,7 +135,7 @@ func gotMetadata(t *Torrent, index, size uint32, data []byte) (bool, error) {
 		return false, errors.New("inconsistent metadata size")
 	}
 	chunks := len(t.infoRequested)
-	if int(index) > chunks {
+	if int(index) >= chunks {
 		return false, errors.New("chunk beyond end of metadata")
 	}
 	if len(data) != 16*1024 &&
